@@ -529,8 +529,17 @@ func runC07Conc(c C07ConcCase, cs *kit.CaseStats) error {
 				if !cfg.short() && i < j && a.relStart > b.fundEnd && b.relStart > a.fundEnd {
 					return fmt.Errorf("output %v is an input of worker %d's %s result (call [%d,%d], released at %d) and of worker %d's %s result (call [%d,%d], released at %d): neither was released before the other was selected", id, a.worker, a.kind, a.fundStart, a.fundEnd, a.relStart, b.worker, b.kind, b.fundStart, b.fundEnd, b.relStart)
 				}
-				// a was certainly outstanding during the whole of b's call
-				if a.fundEnd < b.fundStart && b.fundEnd < a.relStart && b.wall1.Before(a.wall0.Add(wd.dur)) {
+				// a was certainly outstanding during the whole of b's call. With
+				// short reservations a third result c that held the output earlier
+				// (and ran out) may be released late: ReleaseInputs works by output
+				// id and then drops a's reservation too - the integrator's doing.
+				thirdRelease := false
+				for _, c := range rs {
+					if c != a && c.relStart != math.MaxInt64 && c.relStart > a.fundStart && c.relStart < b.fundEnd {
+						thirdRelease = true
+					}
+				}
+				if a.fundEnd < b.fundStart && b.fundEnd < a.relStart && b.wall1.Before(a.wall0.Add(wd.dur)) && !thirdRelease {
 					return fmt.Errorf("output %v was selected by worker %d (%s, call [%d,%d]) while worker %d's %s request (funded at %d, released at %d) held it", id, b.worker, b.kind, b.fundStart, b.fundEnd, a.worker, a.kind, a.fundEnd, a.relStart)
 				}
 			}
